@@ -102,4 +102,217 @@ theorem simRun_y (tau dt d0 x : Rat) (ds : List Rat) (hn : 1 ≤ bufLen tau dt) 
     push_cast
     ring
 
+/-- **Combined simulation statement**: after step `j = ds.length + 1` the delayed state equals the
+    chord interpolation of the (backwards extended) expression between the two step-grid points
+    bracketing `t_j - tau`. -/
+theorem sim_delay_relation (tau dt d0 x t0 : Rat) (ds : List Rat) (hdt : 0 < dt) (htau : 0 ≤ tau) :
+    let j : Int := (ds.length : Int) + 1
+    let n : Nat := bufLen tau dt
+    let tj : Rat := t0 + (j : Rat) * dt
+    let a : Rat := tj - (n : Rat) * dt
+    let fa := dbar d0 (ds ++ [x]) (j - n)
+    let fb := dbar d0 (ds ++ [x]) (j - ((n : Int) - 1))
+    (simRun tau dt d0 (ds ++ [x])).y = fa + (fb - fa) / ((a + dt) - a) * ((tj - tau) - a)
+    ∧ a ≤ tj - tau ∧ tj - tau ≤ a + dt := by
+  intro j n tj a fa fb
+  have hn := bufLen_pos tau dt hdt
+  have h := weight_is_linear_interpolation tau dt tj fa fb hdt htau
+  simp only at h
+  refine ⟨?_, h.2.1, h.2.2⟩
+  rw [← h.1, simRun_y tau dt d0 x ds hn]
+
+/-- **Zero delay**: `y(t) = D(t)` at every step. -/
+theorem sim_zero_delay (dt d0 x : Rat) (ds : List Rat) :
+    (simRun 0 dt d0 (ds ++ [x])).y = x := by
+  have hn : 1 ≤ bufLen 0 dt := by simp [bufLen]
+  rw [simRun_y 0 dt d0 x ds hn]
+  have hb : bufLen 0 dt = 1 := by simp [bufLen]
+  have hw : weight 0 dt = 1 := by simp [weight, bufLen]
+  rw [hw, hb]
+  simp only [Nat.cast_one, sub_self, sub_zero, one_mul, zero_mul, add_zero]
+  exact dbar_append_last d0 x ds
+
+/-! ## optimisation -/
+
+/-- **A delay row vanishes iff the delayed variable equals the delayed expression** (the row is
+    the difference divided by a non-zero scaling). -/
+theorem row_zero_iff (d : DelayProb) (k : Nat) (y v : Rat) (hn : d.nominal ≠ 0)
+    (hy : d.yAt k = .num y) (hv : d.delayedAt k = .num v) :
+    ((d.yAt k).sub (d.delayedAt k)).divBy d.nominal = .num 0 ↔ y = v := by
+  rw [hy, hv]
+  simp only [Res.sub, Res.map2, Res.divBy, Res.map, Res.num.injEq]
+  constructor
+  · intro h
+    have := (div_eq_zero_iff.1 h).resolve_right hn
+    linarith
+  · intro h; simp [h]
+
+/-- the rows are exactly these quotients, one per collocation time stamp (the first included) -/
+theorem rows_spec (d : DelayProb) :
+    d.rows.length = d.ts.length ∧
+    ∀ k, k < d.ts.length →
+      d.rows.getD k .raise = ((d.yAt k).sub (d.delayedAt k)).divBy d.nominal := by
+  constructor
+  · simp [DelayProb.rows]
+  · intro k hk
+    simp [DelayProb.rows, List.getD_eq_getElem?_getD, hk]
+
+/-- what the delayed value is: the interpolation — by the interpolation mode of the receiving
+    variable — of the knots `outKnots` at `t_k - tau_k` (the symbolic interpolant: clamping) -/
+theorem delayedAt_spec (d : DelayProb) (k : Nat) :
+    d.delayedAt k = ofOut (interpSym d.outMode d.outKnots (d.ts.getD k 0 - resRat (d.tauAt k))) := rfl
+
+/-- **Incomplete-history rule**: when the needed range starts before the first history stamp
+    (`hist_start_ind < 0`) or contains a NaN, the history is dropped: the delayed value is
+    interpolated from the trajectory alone … -/
+theorem outKnots_incomplete (d : DelayProb) (vs : List Rat) (hi : d.incomplete = true)
+    (htraj : d.trajD = vs.map Res.num) : d.outKnots = d.ts.zip vs := by
+  simp [DelayProb.outKnots, hi, htraj, resKnots_num]
+
+/-- … so that a query before `t0` returns the expression's `t0` value (constant extrapolation
+    backwards; a warning is logged), in every interpolation mode. -/
+theorem incomplete_extrapolates_t0 (d : DelayProb) (vs : List Rat) (k : Nat)
+    (hi : d.incomplete = true) (htraj : d.trajD = vs.map Res.num)
+    (hs : Sorted (d.ts.zip vs)) (hne : d.ts.zip vs ≠ []) (hm : d.outMode ≤ 2)
+    (hq : d.ts.getD k 0 - resRat (d.tauAt k) < firstTime (d.ts.zip vs)) :
+    d.delayedAt k = .num (firstVal (d.ts.zip vs)) := by
+  rw [delayedAt_spec, outKnots_incomplete d vs hi htraj,
+    (C19.interp_sym_clamps d.outMode hm _ hs hne _).1 hq]
+  rfl
+
+/-- **Complete history**: the knots are history ++ trajectory from the first needed knot on, and
+    every history value from there on is a number (no NaN is ever interpolated). -/
+theorem outKnots_complete (d : DelayProb) (hi : d.incomplete = false) :
+    d.outKnots = resKnots ((d.hts ++ d.ts).drop d.histStart.toNat)
+        ((d.histD ++ d.trajD).drop d.histStart.toNat)
+    ∧ 0 ≤ d.histStart
+    ∧ ∀ r ∈ d.histD.drop d.histStart.toNat, ∃ q, r = .num q := by
+  unfold DelayProb.incomplete at hi
+  simp only [Bool.or_eq_false_iff, decide_eq_false_iff_not, not_lt] at hi
+  refine ⟨by simp [DelayProb.outKnots, DelayProb.incomplete, hi], hi.1, ?_⟩
+  intro r hr
+  have h2 := hi.2
+  rw [List.any_eq_false] at h2
+  have := h2 r hr
+  cases r with
+  | num q => exact ⟨q, rfl⟩
+  | nan => simp [Res.toRat?] at this
+  | raise => simp [Res.toRat?] at this
+
+/-- **`hist_start_ind`** is the index of the last knot of `history times ++ collocation times`
+    at or before the earliest query time (`-1` when there is none): everything up to it is `≤` the
+    earliest query, everything after it is `>` (searchsorted + the "one earlier" correction). -/
+theorem histStart_spec (d : DelayProb) (hs : (d.hts ++ d.ts).Pairwise (· < ·))
+    (hlt : searchLeft (d.hts ++ d.ts) d.earliest < (d.hts ++ d.ts).length) :
+    (∀ i : Nat, (i : Int) ≤ d.histStart → (d.hts ++ d.ts).getD i 0 ≤ d.earliest) ∧
+    (∀ i : Nat, d.histStart < (i : Int) → i < (d.hts ++ d.ts).length →
+        d.earliest < (d.hts ++ d.ts).getD i 0) := by
+  have hsp := searchLeft_spec (d.hts ++ d.ts) d.earliest hs
+  unfold DelayProb.histStart
+  simp only
+  by_cases heq : (d.hts ++ d.ts).getD (searchLeft (d.hts ++ d.ts) d.earliest) 0 = d.earliest
+  · simp only [heq, ne_eq, not_true_eq_false, if_false]
+    constructor
+    · intro i hi
+      rcases Nat.lt_or_ge i (searchLeft (d.hts ++ d.ts) d.earliest) with h | h
+      · exact le_of_lt (hsp.1 i h)
+      · have : i = searchLeft (d.hts ++ d.ts) d.earliest := by omega
+        rw [this, heq]
+    · intro i hi hlen
+      have h1 : searchLeft (d.hts ++ d.ts) d.earliest < i := by omega
+      have := pairwise_getD_lt _ hs _ i h1 hlen
+      rw [heq] at this
+      exact this
+  · simp only [ne_eq, heq, not_false_eq_true, if_true]
+    constructor
+    · intro i hi
+      exact le_of_lt (hsp.1 i (by omega))
+    · intro i hi hlen
+      have h1 : searchLeft (d.hts ++ d.ts) d.earliest ≤ i := by omega
+      rcases Nat.lt_or_ge (searchLeft (d.hts ++ d.ts) d.earliest) i with h | h
+      · have h2 := pairwise_getD_lt _ hs _ i h hlen
+        have h3 := hsp.2 _ (le_refl _) hlt
+        exact lt_of_le_of_lt h3 h2
+      · have : i = searchLeft (d.hts ++ d.ts) d.earliest := by omega
+        rw [this]
+        exact lt_of_le_of_ne (hsp.2 _ (le_refl _) hlt) (Ne.symm heq)
+
+/-- the earliest query time is a lower bound of every query time `t_k - tau_k`: in the complete
+    case no query falls before the first kept knot, so nothing is extrapolated there -/
+theorem earliest_le_query (d : DelayProb) (k : Nat) (hk : k < d.ts.length) :
+    d.earliest ≤ d.ts.getD k 0 - resRat (d.tauAt k) := by
+  unfold DelayProb.earliest
+  apply minList_le
+  exact List.mem_map.2 ⟨k, List.mem_range.2 hk, rfl⟩
+
+/-- **Headline (optimisation)**: all delay rows vanish iff at *every* collocation time stamp the
+    receiving variable equals the interpolation of `outKnots` (history of the expression ++
+    expression on the trajectory, or the trajectory alone when the history is incomplete) at
+    `t_k - tau_k`. -/
+theorem rows_all_zero_iff (d : DelayProb) (hn : d.nominal ≠ 0)
+    (hnum : ∀ k, k < d.ts.length → ∃ y v, d.yAt k = .num y ∧ d.delayedAt k = .num v) :
+    (∀ k, k < d.ts.length → d.rows.getD k .raise = .num 0) ↔
+    (∀ k, k < d.ts.length → d.yAt k = d.delayedAt k) := by
+  constructor
+  · intro h k hk
+    obtain ⟨y, v, hy, hv⟩ := hnum k hk
+    have := h k hk
+    rw [(rows_spec d).2 k hk] at this
+    rw [hy, hv, (row_zero_iff d k y v hn hy hv).1 this]
+  · intro h k hk
+    obtain ⟨y, v, hy, hv⟩ := hnum k hk
+    rw [(rows_spec d).2 k hk]
+    apply (row_zero_iff d k y v hn hy hv).2
+    have := h k hk
+    rw [hy, hv] at this
+    exact Res.num.inj this
+
+/-- the receiving variable enters with its extracted value at the stamp (alias sign applied) when
+    it lives on the collocation grid -/
+theorem yAt_same_grid (d : DelayProb) (k : Nat) (cv : ColVar) (hc : d.mp.cols[d.out]? = some cv)
+    (hg : cv.sv.times.length = d.ts.length) :
+    d.yAt k = .num (sgn d.outNeg * cv.sv.results.getD k 0) := by
+  unfold DelayProb.yAt
+  have : d.mp.cols.getD d.out ⟨⟨0, [], [], 0, none, none⟩, 0⟩ = cv := by
+    simp [List.getD_eq_getElem?_getD, hc]
+  rw [this, map_value_same_grid cv d.ts k hg, applySign_eq_scale]
+  rfl
+
+/-! ## Non-vacuity -/
+
+/-- one state `x` (nominal 2) and the receiving algebraic variable `y` on the grid 0, 1, 2;
+    `y = delay(3·x + 1, tau)`, history of `x` on -2, -1, 0 -/
+def exD (tau : Rat) (hx : RKnots) : DelayProb :=
+  { mp := ⟨0, [0, 1, 2],
+           [⟨⟨2, [0, 1, 2], [1, 2, 4], 0, none, some (1, 0)⟩, 0⟩, ⟨⟨1, [0, 1, 2], [5, 6, 7], 0, none, none⟩, 0⟩],
+           [], [], []⟩,
+    hists := [some hx, none],
+    allHistTimes := [hx.map (·.1)],
+    expr := ⟨1, [(3, [.state 0])]⟩, out := 1, outNeg := false, tau := ⟨tau, []⟩ }
+
+-- complete history, tau = 3/2: queries -3/2, -1/2, 1/2
+example : (exD (3/2) [(-2, .num 1), (-1, .num 3), (0, .num 2)]).incomplete = false
+    ∧ (exD (3/2) [(-2, .num 1), (-1, .num 3), (0, .num 2)]).histStart = 0
+    ∧ (exD (3/2) [(-2, .num 1), (-1, .num 3), (0, .num 2)]).trajD = [.num 7, .num 13, .num 25]
+    ∧ (exD (3/2) [(-2, .num 1), (-1, .num 3), (0, .num 2)]).histD = [.num 4, .num 10]
+    ∧ (List.range 3).map (exD (3/2) [(-2, .num 1), (-1, .num 3), (0, .num 2)]).delayedAt
+        = [.num 7, .num (17/2), .num 10] := by decide +kernel
+-- NaN in the needed range: history dropped, t0 value extrapolated backwards
+example : (exD (3/2) [(-2, .num 1), (-1, .nan), (0, .num 2)]).incomplete = true
+    ∧ (List.range 3).map (exD (3/2) [(-2, .num 1), (-1, .nan), (0, .num 2)]).delayedAt
+        = [.num 7, .num 7, .num 10] := by decide +kernel
+-- delay longer than the history
+example : (exD 5 [(-2, .num 1), (-1, .num 3), (0, .num 2)]).incomplete = true
+    ∧ (exD 5 [(-2, .num 1), (-1, .num 3), (0, .num 2)]).histStart = -1 := by decide +kernel
+-- the rows: (y - delayed) / nominal with nominal = 3·2 + 1 = 7
+example : (exD (3/2) [(-2, .num 1), (-1, .num 3), (0, .num 2)]).nominal = 7
+    ∧ (exD (3/2) [(-2, .num 1), (-1, .num 3), (0, .num 2)]).rows
+        = [.num (-2/7), .num (-5/14), .num (-3/7)] := by decide +kernel
+
+-- simulation: tau = 3/4, dt = 1/2 -> two buffer entries, weight 1/2
+example : bufLen (3/4) (1/2) = 2 ∧ weight (3/4) (1/2) = 1/2
+    ∧ (simTrace (3/4) (1/2) 2 [3, 5, 4, 8]).map (·.y) = [2, 2, 5/2, 4, 9/2] := by decide +kernel
+example : bufLen 0 (1/2) = 1 ∧ weight 0 (1/2) = 1 ∧ bufLen 1 (1/2) = 2 ∧ weight 1 (1/2) = 0 := by
+  decide +kernel
+
 end RtcVerif.C16
